@@ -43,6 +43,7 @@ CONTROLS = {
     ],
     "C01x": [],
     "C03": [
+        ("minima_list_sorted_ no longer invalidated by AddPaths", E, "    if (is_open) has_open_paths_ = true;\n    minima_list_sorted_ = false;", "    if (is_open) has_open_paths_ = true;", "SORTED.invalidate"),
         ("IsCollinear's last factor measured from pt1", 'CPP/Clipper2Lib/include/clipper2/clipper.core.h', '    const auto d = pt2.x - sharedPt.x;', '    const auto d = pt2.x - pt1.x;', 'POLY.cross'),
         ("DoSplitOp inserts the crossing point although it equals prevOp", E, "    if (ip == prevOp->pt || ip == nextNextOp->pt)", "    if (ip == nextNextOp->pt)", "SPLIT.no-duplicate"),
         ("point equality compares z as well", H + "clipper.core.h", "      return a.x == b.x && a.y == b.y;", "#ifdef USINGZ\n      return a.x == b.x && a.y == b.y && a.z == b.z;\n#else\n      return a.x == b.x && a.y == b.y;\n#endif", "T.point-equality"),
@@ -61,6 +62,7 @@ CONTROLS = {
          "        if (using_polytree_)\n        {\n          SetOwner(outrec, prevHotEdge->outrec);\n          outrec->is_open = false;\n        }", "CONFINE"),
     ],
     "C05": [
+        ("DoHorizontal trims every horizontal, open or closed", E, "      if (!IsOpen(*e)) TrimHorz(*e, preserve_collinear_);", "      TrimHorz(*e, preserve_collinear_);", "TRIM.closed-only"),
         ('AddPaths lets a closed path switch the open-path flag off', 'CPP/Clipper2Lib/src/clipper.engine.cpp', '    if (is_open) has_open_paths_ = true;', '    has_open_paths_ = is_open;', 'FLAG.sticky'),
         ("DoMaxima clears the other end's pointer", 'CPP/Clipper2Lib/src/clipper.engine.cpp', '          if (IsFront(e))\n            e.outrec->front_edge = nullptr;\n          else\n            e.outrec->back_edge = nullptr;\n          e.outrec = nullptr;\n        }\n        DeleteFromAEL(e);', '          if (IsFront(e))\n            e.outrec->back_edge = nullptr;\n          else\n            e.outrec->front_edge = nullptr;\n          e.outrec = nullptr;\n        }\n        DeleteFromAEL(e);', 'T.detach'),
         ("ClipperD's closed-only Execute builds without an open target", 'CPP/Clipper2Lib/include/clipper2/clipper.engine.h', '\t\t\tPathsD dummy;\n\t\t\treturn Execute(clip_type, fill_rule, closed_paths, dummy);', '#ifdef USINGZ\n\t\t\tCheckCallback();\n#endif\n\t\t\tif (ExecuteInternal(clip_type, fill_rule, false))\n\t\t\t\tBuildPathsD(closed_paths, nullptr);\n\t\t\tCleanUp();\n\t\t\treturn succeeded_;', 'OPEN.flag'),
@@ -75,6 +77,7 @@ CONTROLS = {
         ("closing vertex compared with the first vertex of the first path", E, "if (!is_open && prev_v->pt == v0->pt)", "if (!is_open && prev_v->pt == vertices->pt)", "ADD.closing-vertex"),
     ],
     "C06": [
+        ("the PolyTree overload of ClipperOffset::Execute keeps the caller's old tree", O, "\tpolytree.Clear();\n\tsolution_tree = &polytree;", "\tsolution_tree = &polytree;", "OUTPUT.reset"),
         ('polygon offsetting consults the raw delta', 'CPP/Clipper2Lib/src/clipper.offset.cpp', 'void ClipperOffset::OffsetPolygon(Group& group, const Path64& path)\n{\n\tpath_out.clear();', 'void ClipperOffset::OffsetPolygon(Group& group, const Path64& path)\n{\n\tpath_out.clear();\n\tif (delta_ < 0 && path.size() < 3) return;', 'OFFSET.sign'),
         ('square join pushed out by the signed delta in y', 'CPP/Clipper2Lib/src/clipper.offset.cpp', '\tptQ = TranslatePoint(ptQ, abs_delta * vec.x, abs_delta * vec.y);', '\tptQ = TranslatePoint(ptQ, abs_delta * vec.x, group_delta_ * vec.y);', 'POLY.offset'),
         ('bevel joins made as square joins', 'CPP/Clipper2Lib/src/clipper.offset.cpp', '\telse if ( join_type_ == JoinType::Bevel)\n\t\tDoBevel(path, j, k);', '\telse if ( join_type_ == JoinType::Bevel)\n\t\tDoSquare(path, j, k);', 'JOIN.dispatch'),
@@ -145,6 +148,7 @@ CONTROLS = {
         ("DisposeOutPt deletes before unlinking", E, "    op->prev->next = op->next;\n    op->next->prev = op->prev;\n    delete op;", "    delete op;\n    op->prev->next = op->next;\n    op->next->prev = op->prev;", "LINK.consistent-at-throw"),
     ],
     "C11": [
+        ("BuildPathsD appends to the caller's closed solution", E, "  void ClipperD::BuildPathsD(PathsD& solutionClosed, PathsD* solutionOpen)\n  {\n    solutionClosed.resize(0);", "  void ClipperD::BuildPathsD(PathsD& solutionClosed, PathsD* solutionOpen)\n  {", "OUTPUT.reset"),
         ('tree overload empties its output only after the precision check', 'CPP/Clipper2Lib/include/clipper2/clipper.h', '    polytree.Clear();\n    int error_code = 0;\n    CheckPrecisionRange(precision, error_code);\n    if (error_code) return;\n    ClipperD clipper(precision);', '    int error_code = 0;\n    CheckPrecisionRange(precision, error_code);\n    if (error_code) return;\n    polytree.Clear();\n    ClipperD clipper(precision);', 'R2.error-consumed'),
         ('RectClip(PathsD) validates through the overload that drops the error', 'CPP/Clipper2Lib/include/clipper2/clipper.h', '    CheckPrecisionRange(precision, error_code);\n    if (error_code) return PathsD();\n    const double scale = std::pow(10, precision);\n    Rect64 r = ScaleRect<int64_t, double>(rect, scale);\n    RectClip64 rc(r);', '    CheckPrecisionRange(precision);\n    if (error_code) return PathsD();\n    const double scale = std::pow(10, precision);\n    Rect64 r = ScaleRect<int64_t, double>(rect, scale);\n    RectClip64 rc(r);', 'R2.error-consumed'),
         ("first vertex never reaches the maximum of GetBounds", H + "clipper.core.h", "      if (p.x < xmin) xmin = static_cast<T>(p.x);\n      if (p.x > xmax) xmax = static_cast<T>(p.x);\n      if (p.y < ymin) ymin = static_cast<T>(p.y);\n      if (p.y > ymax) ymax = static_cast<T>(p.y);\n    }\n    return Rect<T>(xmin, ymin, xmax, ymax);\n  }\n\n  template <typename T, typename T2>\n  Rect<T> GetBounds(const Paths<T2>& paths)",
@@ -184,6 +188,7 @@ CONTROLS = {
          "\t\tfriend class ClipperBase;\n\t\tmutable LocalMinimaList minima_list_;\n\t\tstd::vector<Vertex*> vertex_lists_;\n\t\tvoid AddLocMin", "R2b.container-read-only"),
     ],
     "C15": [
+        ("Reset drops the Z callback", E, "    sel_ = nullptr;\n    succeeded_ = true;", "    sel_ = nullptr;\n    succeeded_ = true;\n#ifdef USINGZ\n    zCallback_ = nullptr;\n#endif", "ZCB.preserved"),
         ('intersection point pre-set to an end point before x and y are computed', 'CPP/Clipper2Lib/include/clipper2/clipper.core.h', '    if (t <= 0.0) ip = ln1a;\n    else if (t >= 1.0) ip = ln1b;\n    else\n    {', '    ip = ln1b;\n    if (t <= 0.0) ip = ln1a;\n    else if (t < 1.0)\n    {', 'Z.out-point-fresh'),
         ('first vertex of a D path loses its z', 'CPP/Clipper2Lib/src/clipper.engine.cpp', '#ifdef USINGZ\n    path.emplace_back(lastPt.x * inv_scale, lastPt.y * inv_scale, lastPt.z);\n#else\n    path.emplace_back(lastPt.x * inv_scale, lastPt.y * inv_scale);\n#endif\n\n    while (op2 != op)', '    path.emplace_back(lastPt.x * inv_scale, lastPt.y * inv_scale);\n\n    while (op2 != op)', 'Z.carry'),
         ('RectClipLines keeps its intersection points across vertices', 'CPP/Clipper2Lib/src/clipper.rectclip.cpp', '    while (i <= highI)\n    {\n      prev = loc;\n      GetNextLocation(path, loc, i, highI);\n      if (i > highI) break;\n      Point64 ip, ip2;\n      Point64 prev_pt = path[static_cast<size_t>(i - 1)];', '    Point64 ip, ip2;\n    while (i <= highI)\n    {\n      prev = loc;\n      GetNextLocation(path, loc, i, highI);\n      if (i > highI) break;\n      Point64 prev_pt = path[static_cast<size_t>(i - 1)];', 'Z.out-point-fresh'),
@@ -228,6 +233,7 @@ CONTROLS = {
         ("partial sum can wrap", H + "clipper.core.h", "    const uint64_t x2 = hi(a) * lo(b) + hi(x1);", "    const uint64_t x2 = hi(a) * lo(b) + x1;", "P.multiply-no-wrap"),
     ],
     "C20": [
+        ("StripDuplicates removes a single trailing duplicate", H + "clipper.core.h", "      while (path.size() > 1 && path.back() == path.front()) path.pop_back();", "      if (path.size() > 1 && path.back() == path.front()) path.pop_back();", "TAIL.loop"),
         ('left half of RDP examined only from two interior vertices on', 'CPP/Clipper2Lib/include/clipper2/clipper.h', '    if (idx > begin + 1) RDP(path, begin, idx, epsSqrd, flags);', '    if (idx > begin + 2) RDP(path, begin, idx, epsSqrd, flags);', 'RDP.spans'),
         ('maxima of GetBounds(Paths) start at the smallest positive value', 'CPP/Clipper2Lib/include/clipper2/clipper.core.h', '    T xmax = std::numeric_limits<T>::lowest();\n    T ymax = std::numeric_limits<T>::lowest();\n    for (const Path<T>& path : paths)', '    T xmax = (std::numeric_limits<T>::min)();\n    T ymax = (std::numeric_limits<T>::min)();\n    for (const Path<T>& path : paths)', 'BOUNDS.minmax'),
         ('RDP gets the epsilon unsquared', 'CPP/Clipper2Lib/include/clipper2/clipper.h', '    RDP(path, 0, len - 1, Sqr(epsilon), flags);', '    RDP(path, 0, len - 1, epsilon, flags);', 'EPS.degree'),
